@@ -1,4 +1,5 @@
 import SparseSpace.Lemmas.GramCache
+import SparseSpace.Lemmas.GramHat
 /-! C17: the right-hand-side reuse branch — soundness of the copy rule, the recomputation rule as coded. -/
 namespace SparseSpace.DCache
 open SparseSpace.Gram
@@ -108,8 +109,8 @@ theorem sum_zipWith_eq_range (F : List ℚ → ℚ → ℚ) : ∀ (data : List (
       List.map_map, sum_zipWith_eq_range F data sg (by simpa using h)]
     rfl
 
-/-- the recomputed entry is the sample mean **provided every sample that `find_data_in_domain` leaves out contributes
-    nothing** (lies outside the support of the hat) — the most that is true of the code as it is -/
+/-- the recomputed entry is the sample mean provided every sample that `find_data_in_domain` leaves out contributes
+    nothing (auxiliary form; the side condition is discharged in `bRecompute_eq_spec`) -/
 theorem bRecompute_eq_spec_partial (data : List (List ℚ)) (sg : List ℚ) (sidx : List (List ℕ)) (h : List Hat1)
     (hlen : sg.length = data.length)
     (hout : ∀ x ∈ List.range data.length, x ∉ findDataInDomain data sidx h → hatNS h (data.getD x []) * sg.getD x 0 = 0) :
@@ -123,5 +124,137 @@ theorem bRecompute_eq_spec_partial (data : List (List ℚ)) (sg : List ℚ) (sid
     exact filter_mem_self _ _
   rw [hf]
   exact sum_filter_of_zero _ _ _ fun x hx hp => hout x hx (by simpa using hp)
+
+/-! ### the data slices leave out only samples outside the support -/
+
+theorem firstGe_lt (lo : ℚ) : ∀ (cs : List ℚ) (i : ℕ) (hi : i < cs.length), i < firstGe lo cs → cs[i] < lo
+  | [], i, h, _ => by simp at h
+  | c :: cs, i, h, hlt => by
+    unfold firstGe at hlt
+    by_cases hc : c ≥ lo
+    · rw [if_pos hc] at hlt; omega
+    · rw [if_neg hc] at hlt
+      cases i with
+      | zero => simpa using hc
+      | succ j => simpa using firstGe_lt lo cs j (by simpa using h) (by omega)
+
+theorem lastLeAux_ge_acc (hi : ℚ) : ∀ (cs : List ℚ) (i acc : ℕ), acc ≤ lastLeAux hi i cs acc
+  | [], _, _ => le_refl _
+  | c :: cs, i, acc => by
+    unfold lastLeAux
+    refine le_trans ?_ (lastLeAux_ge_acc hi cs (i + 1) _)
+    split_ifs with h
+    · omega
+    · exact le_refl _
+
+theorem lastLeAux_ge (hi : ℚ) : ∀ (cs : List ℚ) (i acc j : ℕ) (hj : j < cs.length), cs[j] ≤ hi → i + j ≤ lastLeAux hi i cs acc
+  | [], _, _, j, h, _ => by simp at h
+  | c :: cs, i, acc, j, h, hle => by
+    unfold lastLeAux
+    cases j with
+    | zero =>
+      have hc : c ≤ hi := by simpa using hle
+      refine le_trans ?_ (lastLeAux_ge_acc hi cs (i + 1) _)
+      split_ifs with h'
+      · omega
+      · have : ¬ i > acc := fun hh => h' ⟨hc, hh⟩
+        omega
+    | succ k =>
+      have := lastLeAux_ge hi cs (i + 1) (if c ≤ hi ∧ i > acc then i else acc) k (by simpa using h) (by simpa using hle)
+      omega
+
+theorem lastLe_lt (hi : ℚ) (cs : List ℚ) (j : ℕ) (hj : j < cs.length) (h : lastLe hi cs < j) : hi < cs[j] := by
+  by_contra hc
+  have := lastLeAux_ge hi cs 0 0 j hj (not_lt.mp hc)
+  unfold lastLe at h
+  omega
+
+theorem mem_slice {α : Type} (l : List α) (a b i : ℕ) (hi : i < l.length) (h1 : a ≤ i) (h2 : i < b) :
+    l[i] ∈ (l.drop a).take (b - a) := by
+  rw [List.mem_iff_getElem]
+  refine ⟨i - a, by simp; omega, ?_⟩
+  simp only [List.getElem_take, List.getElem_drop]
+  congr 1; omega
+
+theorem lprod_zipWith_zero (f : Hat1 → ℚ → ℚ) : ∀ (h : List Hat1) (x : List ℚ) (d : ℕ) (h1 : d < h.length) (h2 : d < x.length),
+    f h[d] x[d] = 0 → lprod (List.zipWith f h x) = 0
+  | [], _, _, h1, _, _ => by simp at h1
+  | _ :: _, [], _, _, h2, _ => by simp at h2
+  | a :: h, c :: x, d, h1, h2, hz => by
+    simp only [List.zipWith_cons_cons, lprod]
+    cases d with
+    | zero => simp only [List.getElem_cons_zero] at hz; rw [hz, zero_mul]
+    | succ k =>
+      rw [lprod_zipWith_zero f h x k (by simpa using h1) (by simpa using h2) (by simpa using hz), mul_zero]
+
+/-- **the recomputed entry IS the sample mean** (code as of commit c6031a7): for every hat with non-degenerate support, every
+    data set and labelling, and per dimension any index list that contains every sample index (`np.argsort`; the order
+    does not even matter for correctness) -/
+theorem bRecompute_eq_spec (data : List (List ℚ)) (sg : List ℚ) (sidx : List (List ℕ)) (h : List Hat1)
+    (hlen : sg.length = data.length) (hdim : sidx.length = h.length)
+    (hrow : ∀ x ∈ data, x.length = h.length)
+    (hperm : ∀ l ∈ sidx, ∀ x < data.length, x ∈ l)
+    (hval : ∀ a ∈ h, a.lo < a.p ∧ a.p < a.hi) :
+    bRecompute data sg sidx h = bSpec data sg h := by
+  apply bRecompute_eq_spec_partial data sg sidx h hlen
+  intro x hx hnot
+  have hxM : x < data.length := List.mem_range.mp hx
+  -- some slice does not contain x
+  unfold findDataInDomain at hnot
+  simp only [List.mem_filter, hx, true_and] at hnot
+  rw [List.all_eq_true] at hnot
+  push Not at hnot
+  obtain ⟨s, hs, hxs⟩ := hnot
+  obtain ⟨d, hd, rfl⟩ := List.mem_iff_getElem.mp hs
+  have hd1 : d < sidx.length := by
+    simp only [List.length_zipWith, enum, List.length_zip, List.length_range] at hd; omega
+  have hd2 : d < h.length := by
+    simp only [List.length_zipWith] at hd; omega
+  simp only [List.getElem_zipWith, enum, List.getElem_zip, List.getElem_range] at hxs
+  set l := sidx[d] with hl
+  -- position of x in the index list of dimension d
+  obtain ⟨i, hi, hxi⟩ := List.mem_iff_getElem.mp (hperm l (List.getElem_mem _) x hxM)
+  set coords := l.map (fun i => (data.getD i []).getD d 0) with hco
+  have hci : i < coords.length := by simpa [hco] using hi
+  have hcv : coords[i] = (data.getD x []).getD d 0 := by simp [hco, hxi]
+  have hout : (data.getD x []).getD d 0 < h[d].lo ∨ h[d].hi < (data.getD x []).getD d 0 := by
+    by_contra hcon
+    push Not at hcon
+    apply hxs
+    have hin : l[i] ∈ (l.drop (dataRange coords h[d].lo h[d].hi).1).take
+        ((dataRange coords h[d].lo h[d].hi).2 - (dataRange coords h[d].lo h[d].hi).1) := by
+      apply mem_slice l _ _ i hi
+      · unfold dataRange; simp only
+        by_contra hlt
+        have := firstGe_lt h[d].lo coords i hci (by omega)
+        rw [hcv] at this; linarith [hcon.1]
+      · unfold dataRange; simp only
+        by_contra hge
+        have hc' : coords.length = l.length := by simp [hco]
+        have : lastLe h[d].hi coords < i := by
+          rw [Nat.lt_min] at hge
+          omega
+        have := lastLe_lt h[d].hi coords i hci this
+        rw [hcv] at this; linarith [hcon.2]
+    rw [hxi] at hin
+    simpa using hin
+  -- the hat vanishes there
+  have hrowx : (data.getD x []).length = h.length := by
+    rw [List.getD_eq_getElem?_getD, List.getElem?_eq_getElem hxM]
+    exact hrow _ (List.getElem_mem _)
+  have hd3 : d < (data.getD x []).length := by rw [hrowx]; exact hd2
+  have hgd : (data.getD x []).getD d 0 = (data.getD x [])[d] := by
+    rw [List.getD_eq_getElem?_getD, List.getElem?_eq_getElem hd3]; rfl
+  have hv := hval h[d] (List.getElem_mem _)
+  have hz : hatNS1 h[d] (data.getD x [])[d] = 0 := by
+    rw [hatNS1_eq_spec h[d] hv.1 hv.2]
+    apply hatSpec_outside
+    rw [← hgd]
+    rcases hout with ho | ho
+    · exact Or.inl ho.le
+    · exact Or.inr ho.le
+  unfold hatNS
+  rw [lprod_zipWith_zero hatNS1 h (data.getD x []) d hd2 hd3 hz, zero_mul]
+
 
 end SparseSpace.DCache
